@@ -5,7 +5,7 @@
 From Coq Require Import Ascii String List Bool Arith ZArith NArith Lia QArith Lqa.
 From PTBase Require Import Exn PyStr PyNum PyVal Fmt FixedFormat.
 From Gen Require Import GenTables GenMulgrid.
-From P Require Import Flt Lines MulgridIO RoundTrip Header Fields Natural Idem Canon Rounding RealIdem NatIdem SciIdem.
+From P Require Import Flt Lines MulgridIO RoundTrip Header Fields Natural Idem Canon Rounding RealIdem NatIdem SciIdem HdrOk.
 Import ListNotations.
 Open Scope list_scope.
 
@@ -141,14 +141,14 @@ Proof. intros A B C. apply res_str_eqb_eq. exact (hdr_idem_arith h sc A B C). Qe
 (** * the second write, from arithmetic hypotheses only (plus the read-back check of the header
     line that [nwf] carries, and the re-derived value of layer centres that print as zero) *)
 Definition aidem_ok (g : geo) : bool :=
-  nwf g && str_eqb (h_type (canon_header (g_hdr g))) (s2l supported_type) && hdr_fits (g_hdr g) &&
+  awf g && str_eqb (h_type (canon_header (g_hdr g))) (s2l supported_type) && hdr_fits (g_hdr g) &&
   names_canonical g && centres_ok g.
 Theorem aidem_nidem g : aidem_ok g = true -> nidem_ok g = true.
 Proof.
   unfold aidem_ok, nidem_ok. intro H.
   apply andb_prop in H as [H X]. apply andb_prop in H as [H X0]. apply andb_prop in H as [H X1]. apply andb_prop in H as [H X2].
-  rewrite H, X2, X0, X. cbn [andb]. rewrite andb_true_r.
-  pose proof H as W. unfold nwf, wf_g in W. apply andb_prop in W as [Hh W].
+  apply awf_nwf in H. rewrite H, X2, X0, X. cbn [andb]. rewrite andb_true_r.
+  pose proof H as W. unfold nwf, wf_g, wf_rest in W. apply andb_prop in W as [Hh W].
   destruct (unit_scale_of (h_unit (g_hdr g))) as [sc|] eqn:U; [|discriminate].
   rewrite (hdr_idem_arith _ sc Hh U X1). reflexivity.
 Qed.
